@@ -38,6 +38,11 @@ header, would after `sys-extend` have the foot word of `top` directly before a f
 `prepend-inuse` would clear PINUSE of that fencepost (breaking `shapeOk`). -/
 def HeadOk (s : St) : Prop := ∀ g ∈ s.segs, ∀ e ∈ s.h.ents, e.addr = g.base → e.size ≠ 8
 
+/-- fifth missing conjunct (found while proving `releaseLoop`): the record of a non-head segment lies inside that
+segment.  Otherwise two segments could share one record chunk, and releasing the segment that holds it would break
+`RecsOk` for the other.  Depends only on the segment list. -/
+def RecIn (s : St) : Prop := ∀ g ∈ s.segs, g.recAt ≠ 0 → g.base + 16 ≤ g.recAt ∧ g.recAt < g.base + g.size
+
 /-- the strengthened state-level invariant -/
 structure SInv (s : St) : Prop where
   wfs : WFS s
@@ -45,6 +50,7 @@ structure SInv (s : St) : Prop where
   fence : FenceOk s
   tail : TailOk s
   head : HeadOk s
+  recin : RecIn s
 
 /-- the invariant of histories that IS inductive -/
 def Inv (hs : Hist) : Prop := SInv hs.st ∧ liveOk hs = true
